@@ -259,8 +259,14 @@ def op_operator_batch(task):
         sys.stdout.write("@@" + json.dumps({"id": task["id"], "progress": c["cid"]}) + "\n")
         sys.stdout.flush()
         try:
-            left = c["left"]["number"] if "number" in c["left"] else _tensor(c["left"])
-            right = c["right"]["number"] if "number" in c["right"] else _tensor(c["right"])
+            def number(o):
+                from fractions import Fraction
+
+                v = o["number"]
+                return {"int": lambda: int(v), "fraction": lambda: Fraction(v), "bool": lambda: bool(v)}.get(o.get("numtype"), lambda: v)()
+
+            left = number(c["left"]) if "number" in c["left"] else _tensor(c["left"])
+            right = number(c["right"]) if "number" in c["right"] else _tensor(c["right"])
             r = ops[c["op"]](left, right)
             outs.append({"cid": c["cid"], "out": _raw(r)})
         except Exception as e:  # noqa: BLE001
